@@ -1,8 +1,8 @@
 #!/verif/.venv/bin/python
 # Replay of a solver counterexample against the unmodified code (no shims).
-# property=C03 kernel=eom label=c03:start_exact
+# property=C03 kernel=estimate label=c03:nodelay_starts_at_end_or_barrier
 import sys
-sys.path[:0] = ["/repo/pulser-core", "/repo/pulser-simulation", "/verif"]
+sys.path[:0] = ['/repo' + "/pulser-core", '/repo' + "/pulser-simulation", "/verif"]
 from symx.replay import replay
-sys.exit(replay(check='checks.c03', kernel='eom', shape={'own': {'clock': 1, 'local': False, 'slots': ['pulseA'], 'mod': True, 'pj': 'derived', 'det_off': 0.0, 'eom': {'custom_buffer': False, 'blocks': [(0, None)]}}, 'op': ['add_pulse', 'min-delay', 'B'], 'maxseq': True, 'nbarriers': 1},
-                assignment={'max_sequence_duration': 9, 'own.min_duration': 3, 'own.tr': 1, 'own.eom_tr': 1, 'own.s0.dur': 3, 'new.dur': 3, 'barrier0': 5, 'buf#1.start': 0, 'buf#1.end': 1, 'buf#2.start': 0, 'buf#2.end': 0, 'buf#3.start': 0, 'buf#3.end': 0, 'buf#4.start': 0, 'buf#4.end': 0}, label='c03:start_exact'))
+sys.exit(replay(check='checks.c03', kernel='estimate', shape={'program': 'dmm_after_shift', 'protocol': 'no-delay'},
+                assignment={'ph0': 0, 'd0/k': 2, 'phi1': 0, 'dn/k': 2}, label='c03:nodelay_starts_at_end_or_barrier'))
